@@ -85,7 +85,8 @@ CLAIMS.update({
                 'fragments of one message). Hypothesis forced by the 16/32-bit sequence space: the pushed fragment belongs to a message fewer than 2^15 (SSN) / 2^31 (MID) ahead of the reader. '
                 'The model is tied to reassembly_queue.go by differential replay; the executable predicate (every read = one written message, at most once, in order, gap-free without forwards, '
                 'all returned after draining) is evaluated on the implementation outputs with generator ground truth. '
-                'NOT covered yet: packetize/TSN assignment (C01_packetize_wf, C01_tsn_assignment), duplicate filtering (C01_dedup, C05), wire content, and the end-to-end NetSys invariant (C01_netsys_prefix).',
+                'SENDER HALF (Props/C01wire.lean, on the L0 sender model tied by the direct-drive correspondence): for ALL runs (writes, gathers, arbitrary SACKs, T3, RACK/PTO marks, abandonment) every DATA/I-DATA chunk any gather puts on the wire is an un-acknowledged faithful copy (stream, message identity, PPI, U/B/E, SSN, MID, FSN, length) of a chunk created by an accepted write (C01_wire_faithful); an acked chunk is never flagged for retransmission (C01_acked_never_marked); a write creates exactly the fragments of one message (C01_write_fragments) and message identities are unique per write (C01_message_identity). '
+                'NOT covered yet: duplicate filtering at association level (C01_dedup, C05 is the component theorem), and the composed end-to-end NetSys invariant (C01_netsys_prefix) — system level stays exploration.',
         'note': NOTE_COMMON + ' Known finding D15: nothing in the association enforces the 2^15 hypothesis for DATA (a_rwnd counts user bytes only, entry cap off by default): '
                 'an application that lags 32769 small ordered messages behind loses acknowledged messages and later stalls (witness replayed on every run; e2e witness in corpus/C01).',
         'technique': 'Lean 4 proof (refinement of the queue to a table of messages, induction over arbitrary honest runs) + model/implementation differential replay + executable predicate on implementation outputs',
